@@ -1,6 +1,10 @@
 """C28 - exactly one of Felix and BIRD programs each IP pool's cluster routes (felix/config, felix/calc,
-felix/dataplane/linux ipipManager, confd bgp_processor)."""
-from vlib import pipeline
+felix/dataplane/linux ipipManager, confd bgp_processor).  Three legs: static cases on confd + Felix config/calc, static cases on
+the dataplane manager, and a dynamic leg (DynRoutes.tla) over histories of pool / BGPConfiguration updates and renders."""
+import copy
+
+from vlib import core, pipeline
+from vlib.core import HarnessError
 
 _VALUES = ("Disabled", "Enabled", "EnabledIPIPOnly", "EnabledNoEncapOnly")
 _SUPPORTED = {("EnabledIPIPOnly", "EnabledNoEncapOnly"), ("Enabled", "Disabled"), ("Disabled", "Enabled"),
@@ -48,6 +52,62 @@ P = {
 }
 
 
+# ---- dynamic leg: histories of updates and renders (DynRoutes.tla) ------------------------------------------------
+_UPDATES = ("pool_set", "pool_del", "bgp")
+
+
+def dyn_signature(t_id, events, off, reason):
+    r = events[0]
+    bgp = r.get("bgp")
+    for e in events[:off]:
+        if e.get("ev") == "bgp":
+            bgp = e.get("v")
+    return "dyn:%s:felix=%s,bgp=%s,insync=%s" % (events[off].get("ev"), r.get("felix"), bgp,
+                                                 any(e.get("ev") == "insync" for e in events[:off]))
+
+
+def dyn_nontrivial(evs):
+    # the history contains an update after the first render call or after in-sync, and is judged afterwards
+    seen = False
+    upd_after = False
+    for e in evs:
+        if e["ev"] in ("render", "render_start", "insync"):
+            seen = True
+        elif e["ev"] in _UPDATES and seen:
+            upd_after = True
+        elif e["ev"] == "quiesce" and upd_after:
+            return True
+    return False
+
+
+DYN_RULE = ("; dynamic leg: one trace = one history (TLC random walks of DynRoutes: 9 actions over 3 pools x 5 encapsulation modes x "
+            "6 BGP values, Felix setting fixed per history; plus seeded longer histories over 4 pools) of pool add/change/delete, "
+            "BGPConfiguration updates, Felix in-sync and renders whose start and finish are separate steps (updates land mid-render "
+            "through a log hook inside processIPPools), replayed on a real confd client (onUpdates, GetBirdBGPConfig) and a real Felix "
+            "calculation graph; at every quiescent point (render issued after the last update) TLC judges ClusterRoutes!Holds and the "
+            "one-sided ownership for the CURRENT setting and pools from the statements BIRD holds and the last Encapsulation message; "
+            "non-trivial = an update after the first render or after in-sync, judged afterwards. The dynamic leg is sampled, not exhaustive")
+
+P3 = {
+    "specdir": "clusterroutes",
+    "design": [{"module": "DynRoutes", "cfg": "MC_DynRoutes.cfg", "thorough_cfg": "MC_DynRoutes_thorough.cfg", "workers": 4,
+                "timeout": 500, "thorough_timeout": 1200, "heap": "4g"}],
+    "gen": {"module": "Gen_DynRoutes", "cfg": "Gen_DynRoutes.cfg", "simulate": {"num": 300, "depth": 60},
+            "thorough_simulate": {"num": 6000, "depth": 60}, "timeout": 500, "thorough_timeout": 1200},
+    "driver": {"overlay_pkg": "confd/pkg/backends/calico", "run": "^TestVerifC28Dyn$", "timeout": 2400},
+    "n_random": (40, 1500),
+    "trace": {"module": "T_DynRoutes", "cfg": "T_DynRoutes.cfg"},
+    "signature": dyn_signature,
+    "nontrivial": dyn_nontrivial,
+    "rule": P["rule"] + DYN_RULE,
+    "assumptions": ["dynamic leg: Felix 'programs' a pool's class iff the last Encapsulation message after in-sync has the class's flag "
+                    "(daemon.go restarts Felix with exactly these flags) and the config accessor for the class is on; the mid-render "
+                    "point is the debug line of processIPPools (policy read, pools not yet read), where the real code holds no lock",
+                    "dynamic leg: IPv4 pools only; Felix's own setting does not change within a history (a change restarts Felix)"],
+    "exhaustive": False,
+}
+
+
 def run(ctx):
     pipeline.standard_check(ctx, P)
     if not ctx.violations:
@@ -56,7 +116,19 @@ def run(ctx):
         P2["driver"] = {"overlay_pkg": "felix/dataplane/linux", "run": "^TestVerifC28DP$", "timeout": 2400}
         P2["n_random"] = (0, 0)
         pipeline.standard_check(ctx, P2)
-        ctx.cov["exhaustive"] = True
+    if not ctx.violations:
+        if not ctx.quick:
+            # negative control: the model with the cache stamped at store time must violate the quiescent judgement
+            r = core.tlc("clusterroutes", "DynRoutes", "MC_DynRoutes_bug.cfg", workers=2, timeout=300)
+            if r.violated != "QuiescentHolds":
+                raise HarnessError("DynRoutes with StampAtFinish = TRUE no longer violates QuiescentHolds: %s" % r.violated)
+            ctx.notes["model_reproduces_stale_cache"] = {"states": r.distinct}
+        pipeline.standard_check(ctx, P3)
+        # the static legs enumerate their case space; the dynamic leg samples histories (see the rule text),
+        # so the check as a whole is not exhaustive
+        ctx.cov["exhaustive"] = False
+        ctx.notes["static_legs_exhaustive"] = True
+        ctx.notes["dynamic_leg"] = {"exhaustive": False, "design": "DynRoutes exhaustive on 2 pools x 3 modes, <= %d updates" % (3 if ctx.quick else 5)}
 
 
 def selftest(ctx):
@@ -105,8 +177,42 @@ def selftest(ctx):
                 e["felix"], e["bgp"] = e["bgp"], e["felix"]
                 return evs
 
-    return pipeline.corruption_selftest(ctx, P, [("flip_bird", flip_bird), ("drop_felix_route", drop_felix_route),
-                                                 ("both_program", both_program), ("swap_setting", swap_setting)], n_random=120)
+    ok = pipeline.corruption_selftest(ctx, P, [("flip_bird", flip_bird), ("drop_felix_route", drop_felix_route),
+                                               ("both_program", both_program), ("swap_setting", swap_setting)], n_random=120)
+
+    # ---- dynamic leg
+    def stale_statement(evs):
+        # BIRD is left with a statement of the wrong polarity at a quiescent point (what a stale render cache does)
+        for q, e in enumerate(evs):
+            if e["ev"] == "quiesce" and evs[q - 1]["ev"] == "render" and evs[q - 1]["statements"]:
+                r = copy.deepcopy(evs[q - 1])
+                st = r["statements"][0]
+                st["action"] = "accept" if st["action"] == "reject" else "reject"
+                evs[q - 1] = r
+                return evs
+
+    def missing_encap(evs):
+        # the resolver stays silent when a pool class Felix owns appears after in-sync
+        none = {"ipip": False, "vxlan": False, "noencap": False}
+        for q, e in enumerate(evs):
+            if e["ev"] != "quiesce":
+                continue
+            t = e["t"]
+            idx = [i for i in range(q) if evs[i]["t"] == t]
+            if not any(evs[i]["ev"] == "insync" for i in idx):
+                continue
+            enc = [i for i in idx if evs[i]["ev"] == "encap"]
+            if not enc:
+                continue
+            k = enc[-1]
+            prev = evs[enc[-2]] if len(enc) > 1 else none
+            sw = next(evs[i]["sw"] for i in idx if evs[i]["ev"] == "reset")
+            for c, on in (("vxlan", True), ("ipip", sw["ipip"]), ("noencap", sw["noencap"])):
+                if on and evs[k][c] and not prev[c]:
+                    return evs[:k] + evs[k + 1:]
+
+    ok3 = pipeline.corruption_selftest(ctx, P3, [("stale_statement", stale_statement), ("missing_encap", missing_encap)], n_random=60)
+    return ok and ok3
 
 
 MANIFEST = dict(
@@ -115,7 +221,13 @@ MANIFEST = dict(
          "are complementary exactly on the supported pairings and that VXLAN is always Felix's. TLC enumerates all 36 pairings x pool "
          "modes; an in-package driver asks the real confd (processIPPools -> kernel-programming filter statements) and the real Felix "
          "(config accessors, encapsulation calculator, calculation graph routes; second driver: ipipManager writing routes) and TLC "
-         "evaluates the filter and judges Holds for every case.",
+         "evaluates the filter and judges Holds for every case. Dynamic leg: DynRoutesProp.tla reads the same judgement at every "
+         "quiescent point of a history (current BGP setting, current pools, the statements BIRD holds, the last Encapsulation message "
+         "Felix's calculation graph sent); DynRoutes.tla models confd's render cache (revision read at render start, stamp, cache hit) "
+         "and Felix's resolver, TLC checks it exhaustively against DynRoutesProp (and, thorough tier, that stamping the cache at store "
+         "time violates it); TLC random walks with updates landing mid-render are replayed on a real confd client (onUpdates, "
+         "GetBirdBGPConfig) and a real Felix calculation graph, and T_DynRoutes judges the recorded events.",
     design_ref="3.7 C28",
-    technique="TLA+ spec (ClusterRoutes) + TLC exhaustive; TLC-generated cases replayed on real confd and Felix code; trace validation with TLC",
+    technique="TLA+ spec (ClusterRoutes, DynRoutes) + TLC exhaustive; TLC-generated cases and histories replayed on real confd and Felix code; "
+              "trace validation with TLC",
 )
